@@ -236,7 +236,7 @@ def concat_traces(paths, out):
                 f.write(g.read())
 
 
-def validate_traces(module, traces, invariants, workdir, batch=12, extra_consts=None, log=None):
+def validate_traces(module, traces, invariants, workdir, batch=12, extra_consts=None, log=None, bounds=True):
     """traces: list of paths. Returns (n_ok, failures[list of dict(trace, matched, total, violation, event)], states)"""
     os.makedirs(workdir, exist_ok=True)
     evs = {p: read_trace(p) for p in traces}
@@ -246,7 +246,7 @@ def validate_traces(module, traces, invariants, workdir, batch=12, extra_consts=
     def run_batch(i, ps):
         bfile = os.path.join(workdir, 'batch_%d.ndjson' % i)
         concat_traces(ps, bfile)
-        consts = trace_bounds([evs[p] for p in ps])
+        consts = trace_bounds([evs[p] for p in ps]) if bounds else {}
         if extra_consts:
             consts.update(extra_consts)
         r = validate_batch(module, bfile, consts, invariants, workdir, 'b%d' % i)
@@ -267,7 +267,7 @@ def validate_traces(module, traces, invariants, workdir, batch=12, extra_consts=
     def run_single(t):
         p, r = t
         if r is None:
-            consts = trace_bounds([evs[p]])
+            consts = trace_bounds([evs[p]]) if bounds else {}
             if extra_consts:
                 consts.update(extra_consts)
             r = validate_batch(module, p, consts, invariants, workdir, 's' + hashlib.md5(p.encode()).hexdigest()[:8])
@@ -537,7 +537,7 @@ def traced_check(ctx, binary, progs, runs, invariants, module='MythTrace', known
     return res, fails
 
 
-def bind_selftest(ctx, trace, invariants, mutations, module='MythTrace'):
+def bind_selftest(ctx, trace, invariants, mutations, module='MythTrace', extra_consts=None, bounds=True):
     """corrupt one good trace in several ways; every corruption must be rejected"""
     evs = read_trace(trace)
     d = os.path.join(ctx.work, 'bind'); os.makedirs(d, exist_ok=True)
@@ -553,7 +553,7 @@ def bind_selftest(ctx, trace, invariants, mutations, module='MythTrace'):
         paths.append(p); names.append(name)
     if not paths:
         raise Infra('bind self-test: no applicable corruption for ' + trace)
-    nok, fails, _ = validate_traces(module, paths, invariants, os.path.join(d, 'tv'), batch=1)
+    nok, fails, _ = validate_traces(module, paths, invariants, os.path.join(d, 'tv'), batch=1, extra_consts=extra_consts, bounds=bounds)
     rejected = set(f['trace'] for f in fails)
     for p, n in zip(paths, names):
         ok = p in rejected
@@ -780,6 +780,150 @@ def check_C20(ctx):
               thorough_designs=[('MC_Sync', 'MC_Sync_timed.cfg')])
 
 
+# ----------------------------------------------------------------------------- C15: configuration parsing, init / fini
+ENV_TOK = {'N': '\n', 'T': '\t'}
+IF_EVENTS = ('Reset', 'U_Request', 'InitCas', 'InitReally', 'WorkerStart', 'InitDone', 'U_NumWorkers', 'U_WorkerNum',
+             'FiniBegin', 'WorkerExit', 'FiniDone')
+
+
+def envparse_cases(ctx, cfg):
+    """TLC enumerates every string of the configured length over the class alphabet together with the
+    expected outcome of the reference semantics (EnvParse.tla)"""
+    r = tlc_design('EnvParse', os.path.join(SPEC, cfg), coverage=False, heap='8g', timeout=3000)
+    if not r['ok']:
+        raise Infra('EnvParse enumeration failed: %s' % r['violation'])
+    cases = []
+    for l in r['out'].split('\n'):
+        if l.startswith('<<"CASE"'):
+            m = re.match(r'<<"CASE", "(.*)">>$', l.strip())
+            c = json.loads(m.group(1).encode().decode('unicode_escape'))
+            cases.append((''.join(ENV_TOK.get(x, x) for x in c['s']), c))
+    ctx.cov['states'] += r['distinct']; ctx.cov['transitions'] += r['states']
+    ctx.cov['design_runs'].append({'module': 'EnvParse', 'cfg': cfg, 'distinct_states': r['distinct'], 'strings_enumerated': len(cases),
+                                   'wall_s': r['wall_s'], 'result': 'ok'})
+    return cases
+
+
+def check_C15(ctx):
+    lib = build_lib()
+    run_design(ctx, 'InitFini', 'InitFini_small.cfg')
+    cases = envparse_cases(ctx, 'EnvParse_quick.cfg' if ctx.quick else 'EnvParse_thorough.cfg')
+    ctx.log('EnvParse: %d strings enumerated by TLC' % len(cases))
+    # --- (1) every enumerated string through the real parser / readers (unit harness including the library source)
+    unit = os.path.join(BUILD, 'envparse_unit')
+    rc, o = sh('gcc -O1 -w -D_GNU_SOURCE -DMYTH_WRAP=MYTH_WRAP_VANILLA -I%s/include -I%s/src %s -I%s/vrt -o %s %s/harness/envparse_unit.c -lpthread -ldl'
+               % (REPO, REPO, ('-I%s/cfg' % lib) if os.path.isdir(lib + '/cfg') else '', VERIF, unit, VERIF), timeout=300)
+    if rc != 0:
+        raise Infra('envparse unit build failed: ' + o[-2000:])
+    inp = os.path.join(ctx.work, 'envparse_in.txt')
+    with open(inp, 'w') as f:
+        for s_, c in cases:
+            f.write(s_.encode().hex() + '\n')
+    rc, out = sh([unit, inp], timeout=3000)
+    res = {}
+    for l in out.strip().split('\n'):
+        p_ = l.split()
+        if p_ and p_[0].isdigit():
+            res[int(p_[0])] = p_[1:]
+    nbad = 0
+    for i, (s_, c) in enumerate(cases):
+        r = res.get(i)
+        what = None
+        if r is None:
+            raise Infra('envparse unit: no result for case %d' % i)
+        if r[0] == 'CRASH':
+            what = 'value %r of a configuration variable makes the library crash (signal %s)' % (s_, r[1])
+        else:
+            n = int(r[1]); lst = [int(x) for x in r[2:r.index('num')]]
+            nums = [int(x) for x in r[r.index('num') + 1:]]
+            exp = c['cpu']
+            if n != exp['n'] or (exp['ok'] and lst != exp['list'][:40]):
+                what = 'MYTH_CPU_LIST=%r parsed as %d %s, reference semantics %d %s' % (s_, n, lst[:8], exp['n'], exp['list'][:8])
+            elif (nums[0] != 131072 if c['num'] == 0 else nums[0] != c['num']):
+                what = 'MYTH_DEF_STKSIZE=%r gives stack size %d, reference semantics %s' % (s_, nums[0], c['num'] or 'default')
+            elif (nums[1] != 4096 if c['num'] == 0 else nums[1] != c['num']):
+                what = 'MYTH_DEF_GUARDSIZE=%r gives guard size %d, reference semantics %s' % (s_, nums[1], c['num'] or 'default')
+            elif nums[2] != c['num']:
+                what = 'MYTH_NUM_WORKERS=%r read as %d, reference semantics %d' % (s_, nums[2], c['num'])
+        if what:
+            nbad += 1
+            if nbad <= 5:
+                f_ = os.path.join(ctx.work, 'envcase_%d.txt' % i)
+                open(f_, 'w').write(repr(s_) + '\n' + json.dumps(c) + '\n' + ' '.join(r) + '\n')
+                ctx.violation(what, [f_])
+    ctx.cov['oracle_cases_replayed_into_impl'] = len(cases)
+    ctx.cov['samples'].append({'string': cases[len(cases) // 3][0], 'expected': cases[len(cases) // 3][1]})
+    ctx.log('EnvParse: %d strings replayed into the real parser, %d disagreements' % (len(cases), nbad))
+    # --- (2) whole-process runs: init/fini histories, and sampled environment values
+    binary = build_harness(lib, 'initfini', ['initfini.c'])
+    rng = random.Random(ctx.seed * 31 + 5)
+    ncpu = os.cpu_count()
+    tdir = os.path.join(ctx.work, 'traces'); os.makedirs(tdir, exist_ok=True)
+    jobs = []
+    nhist = 12 if ctx.quick else 60
+    for h in range(nhist):
+        gens = ['a:%d' % rng.choice((1, 1, 2, 3, 4, 5, 8, 16, 32, 64)) for _ in range(rng.randint(1, 6 if ctx.quick else 30))]
+        jobs.append((gens, {}))
+    nenv = 40 if ctx.quick else 400
+    interesting = [c for c in cases if c[0] and '\x00' not in c[0]]
+    for h in range(nenv):
+        env = {}
+        s_nw, c_nw = rng.choice(interesting)
+        env['MYTH_NUM_WORKERS'] = s_nw
+        for var in ('MYTH_CPU_LIST', 'MYTH_DEF_STKSIZE', 'MYTH_DEF_GUARDSIZE', 'MYTH_BIND_WORKERS', 'MYTH_CHILD_FIRST'):
+            if rng.random() < 0.6:
+                env[var] = rng.choice(interesting)[0]
+        # keep worker counts and (valid) stack sizes reasonable for a real run
+        exp = c_nw['num'] if c_nw['num'] <= 64 else None
+        stk = env.get('MYTH_DEF_STKSIZE')
+        if exp is None or (stk is not None and 0 < next(c for s2, c in cases if s2 == stk)['num'] < 65536):
+            continue
+        jobs.append(([rng.choice(('e', 'i')) + ':%d' % exp], env))
+
+    def one(t):
+        k, (gens, env) = t
+        out = os.path.join(tdir, 'if_%d.ndjson' % k)
+        e = dict(os.environ); e.update(env)
+        try:
+            p_ = subprocess.run([binary, out] + gens, env=e, stdout=subprocess.PIPE, stderr=subprocess.PIPE, timeout=120)
+            rc_ = p_.returncode
+        except subprocess.TimeoutExpired:
+            rc_ = 124
+        return k, gens, env, out, rc_
+
+    with cf.ThreadPoolExecutor(max_workers=4) as ex:
+        results = list(ex.map(one, enumerate(jobs)))
+    traces = []
+    for k, gens, env, out, rc_ in results:
+        if rc_ != 0:
+            f_ = os.path.join(ctx.work, 'ifrun_%d.txt' % k)
+            open(f_, 'w').write(json.dumps({'gens': gens, 'env': env, 'rc': rc_}))
+            ctx.violation('init/fini run %s with environment %s: %s' % (gens, env, 'hang (timeout)' if rc_ == 124 else 'exit status %d' % rc_), [f_])
+            continue
+        filt = out + '.f'
+        with open(filt, 'w') as f:
+            for e in read_trace(out):
+                if e['e'] in IF_EVENTS:
+                    f.write(json.dumps(e) + '\n')
+        traces.append(filt)
+    count_actions(ctx, traces)
+    ctx.log('C->S validating %d init/fini traces' % len(traces))
+    nok, fails, states = validate_traces('InitFiniTrace', traces, ['IFOK'], os.path.join(ctx.work, 'tv'), batch=8,
+                                         extra_consts={'MaxNW': 64, 'NCPU': ncpu}, bounds=False)
+    ctx.cov['traces_validated_against_impl'] += nok
+    for f in fails:
+        ctx.violation('%s at event %d/%d %s' % (f['violation'], f['matched'] + 1, f['total'], json.dumps(f['event'])), [f['trace']])
+    if traces and not fails:
+        bind_selftest(ctx, traces[0], ['IFOK'], [
+            ('wrong_worker_count', mut_first(ev('InitReally'), set_arg(0, lambda v: v + 1))),
+            ('worker_started_twice', mut_first(ev('WorkerStart'), lambda evs, i: evs[:i + 1] + [evs[i]] + evs[i + 1:])),
+            ('fini_before_workers_exit', mut_first(ev('WorkerExit'), drop_at)),
+            ('rank_out_of_range', mut_first(ev('U_WorkerNum'), set_arg(0, 64)))], module='InitFiniTrace',
+            extra_consts={'MaxNW': 64, 'NCPU': ncpu}, bounds=False)
+    ctx.assumptions += ['strings up to the enumerated length over the class alphabet {0,1,9,",","-",":",junk,blank,newline}',
+                        'init/fini events recorded in mutex order (free recording), not serialized']
+
+
 def check_C12(ctx):
     std_check(ctx, [('MC_Core', 'MC_Core_small.cfg')],
               lambda rng: gen_core_prog(rng, maxb=10, flagset=(0, F_STACK, F_STACK, F_PF | F_STACK, F_ATTR, F_DETACH | F_STACK, F_PF)),
@@ -812,7 +956,7 @@ def check_C14(ctx):
 
 
 CHECKS = {'C01': check_C01, 'C02': check_C02, 'C04': check_C04, 'C09': check_C09, 'C10': check_C10, 'C11': check_C11, 'C05': check_C05, 'C06': check_C06, 'C07': check_C07,
-          'C08': check_C08, 'C12': check_C12, 'C13': check_C13, 'C14': check_C14, 'C20': check_C20}
+          'C08': check_C08, 'C12': check_C12, 'C13': check_C13, 'C14': check_C14, 'C15': check_C15, 'C20': check_C20}
 
 
 def main():
